@@ -276,8 +276,23 @@ def build_string(fn, var, before=None):
         elif c.callee in ("strcat", "strncat"):
             pieces = pieces + [_piece(c.args[1])]
         else:
-            fmt = c.args[2 if c.callee == "snprintf" else 1].strval()
-            pieces = [Piece("fmt", fmt, node=c)]
+            fi = 2 if c.callee == "snprintf" else 1
+            fmt = c.args[fi].strval()
+            # a format made of plain %s conversions and literal text is the concatenation of its arguments and that text
+            import re as _re
+            parts = _re.split(r"(%s)", fmt) if fmt is not None else None
+            rest = c.args[fi + 1:]
+            if parts is not None and "%" not in "".join(x for x in parts if x != "%s") and parts.count("%s") == len(rest) and rest:
+                out, k_ = [], 0
+                for x in parts:
+                    if x == "%s":
+                        out.append(_piece(rest[k_]))
+                        k_ += 1
+                    elif x:
+                        out.append(Piece("lit", x, node=c))
+                pieces = out
+            else:
+                pieces = [Piece("fmt", fmt, node=c)]
     return pieces, seen_any
 
 
